@@ -70,6 +70,12 @@ def run(ctx):
         lines.append("go %s | | %s" % (f, lim))
         info.append((f, lim, "poison"))
         add(lines, info)
+    # (b') the two together: a poisoned root entry AND a stop before the first iteration completes (fallback answer path)
+    for _ in range(60 if q else 800):
+        f = rng.choice(fens)
+        lim = rng.choice(["infinite @stopat=%d" % rng.choice([0, 0, 1, 2, 3, 5, 8]), "depth 3 @stoppoint=%d" % rng.choice([0, 1, 2, 10]),
+                          "depth 2 @stopat=0 searchmoves %s" % " ".join(rng.sample(legal[f], max(1, len(legal[f]) // 2)))])
+        add(["poison %d 3 %s |" % (rng.randrange(1 << 30), f), "go %s | | %s" % (f, lim)], [None, (f, lim, "poison+earlystop")])
     # (c) early-stop enumeration: stop after exactly k node visits, k = 0..K, and at every schedule point / iteration boundary
     base = [posgen.START, posgen.CLASSIC[1], "8/8/8/8/8/4k3/b5p1/6K1 w - - 0 1"] + HEAVY[:2]
     K = 40 if q else 400
@@ -100,6 +106,7 @@ def run(ctx):
     drive_cases, drive_exp, drive_meta = [], [], []
     pv_cases, pv_meta = [], []
     ngo = 0
+    npvnodes = [0]
     kinds = {}
     nviol = len(crashes)
     for lines, info, res in zip(sessions, meta, results):
@@ -123,6 +130,12 @@ def run(ctx):
                     ctx.violation("go answered with %d bestmove line(s), move '%s' (legal/allowed: %s): position '%s', go %s [%s]"
                                   % (g["nbest"], g["best"], " ".join(allowed[:12]), f, lim, kind),
                                   {"session": lines, "failing_cmd": ln, "result": r, "legal_moves": root}, key="c05:bm:%s:%s" % (f, lim))
+            if g.get("badpv", 0):
+                nviol += 1
+                if nviol <= 6:
+                    ctx.violation("a node left a pv in its slot that is not a playable line from the node's position (invariant of theorem C05_pv_legal): %s at %s"
+                                  % (ln, str(g.get("badpv_at", "?")).replace("_", " ")), {"session": lines, "failing_cmd": ln, "result": r}, key="c05:nodepv:" + ln)
+            npvnodes[0] += g.get("pvnodes", 0)
             if not g.get("restored", 1):
                 nviol += 1
                 ctx.violation("the search did not restore its position after go: '%s' go %s" % (f, lim), {"session": lines, "cmd": ln}, key="c05:restore:" + ln)
@@ -181,6 +194,7 @@ def run(ctx):
     ctx.cov["traces_validated_against_impl"] = nconf
     ctx.notes["go_commands_by_kind"] = kinds
     ctx.notes["pv_lines_checked"] = npv
+    ctx.notes["node_exits_with_pv_checked"] = npvnodes[0]
     ctx.notes["root_calls_checked"] = nroot
     for (lines, ln, r, g) in drive_meta[:3]:
         ctx.sample({"cmd": ln, "bestmove": g["best"], "iterations": [(d, s, " ".join(pv)) for d, s, pv in g["iters"]][:3]})
